@@ -16,12 +16,12 @@ ASSUMPTIONS = [
     "conditioning-aware tolerance max(1e-9, 5000 eps e^G) (double) / 5e-5 (single)",
     "length scales that are not powers of two are only applied where the pad width int(halo/dx) is not on a knife edge",
 ]
-MIN_NONTRIVIAL = {"quick": 300, "thorough": 5000}
-TIMEOUT = {"quick": 900, "thorough": 3000}
+MIN_NONTRIVIAL = {"quick": 300, "thorough": 20000}
+TIMEOUT = {"quick": 900, "thorough": 7000}
 
 
 def cases(tier, seed):
-    n = 192 if tier == "quick" else 3200
+    n = 192 if tier == "quick" else 16000
     return [{"seed": seed, "idx": i} for i in range(n)]
 
 
